@@ -34,6 +34,21 @@ def norm(items):
             if t == "Tagged":
                 n = canon_tag(n)
             out.append(n)
+        elif t == "Prim" and it.get("kind") == "INTEGER" and it.get("args") and isinstance(core(it["args"][0]), PhiV) and "inner" not in it and not it.get("_split"):
+            # one write of a case-split value (`let sn = if .. { a } else { b }; w.write_x(sn)`) is the same as one write
+            # per case
+            from interp import flatten_phi
+            for c_, x_ in flatten_phi(it["args"][0]):
+                if c_ is False:
+                    continue
+                k_ = dict(it)
+                k_["args"] = [x_] + list(it["args"][1:])
+                k_["_split"] = True
+                kk_ = norm([k_])
+                if c_ is True:
+                    out.extend(kk_)
+                else:
+                    out.append({"t": "Cond", "f": c_, "c": kk_})
         elif t == "Prim":
             n = dict(it)
             # OCTET STRING / BIT STRING wrapping a nested DER value
@@ -589,6 +604,15 @@ class Matcher:
             return True
         rc, fc = alias(rc), alias(fc)
         ce, n = F.counterexample(rc, fc)
+        if ce is not None:
+            # "given success": on a path on which the writer leaves with an error no artefact exists, so the two conditions
+            # need only agree where no recorded failure condition (over the same vocabulary) holds
+            voc = set(F.atoms(rc)) | set(F.atoms(fc))
+            fl = [alias(c_) for c_, v_, n_, f_ in getattr(self.I, "fails", []) if c_ is not True and c_ is not False]
+            fl = [c_ for c_ in fl if set(F.atoms(c_)) <= voc]
+            if fl:
+                ok_ = F.Not(F.Or(*fl))
+                ce, n = F.counterexample(F.And(rc, ok_), F.And(fc, ok_))
         if ce is not None:
             self.err(path + ("when",), "emission condition differs from the reference; differs when " + F.show_asg(ce), sp, expected=F.show(rc), found=F.show(fc))
             return False
